@@ -21,7 +21,7 @@ LEVEL_NOTE = "Trusted: connection-tier harness for the per-connection limits; ti
 RULE = "cases = limit kind x limit value x approach (below/at/above) x segmentation x worker; non-trivial = the limit was approached within 2x"
 ASSUMPTIONS = ["an over-size head that arrives complete within one read is not judged (the statement says 'still incomplete after')",
                "which HTTP/2 error code refuses a stream is not demanded"]
-MIN_DECISIVE = {"h11-incomplete": 30, "h2-concurrent": 10, "h2-header-list": 10, "keepalive-max": 20, "max-requests": 4}
+MIN_DECISIVE = {"h11-incomplete": 30, "h2-concurrent": 10, "h2-header-list": 10, "keepalive-max": 20, "max-requests": 4, "recycle-processes": 1}
 SHARDS = 16
 
 
@@ -85,6 +85,11 @@ def gen(rng, tier):
                            "rep": 0, "how": how}
             n += 1
             yield {"family": "max_requests.h2c", "kind": "max_requests", "backend": be, "max_requests": 2, "jitter": 0, "tag": n, "rep": 0, "how": "h2c"}
+            # ---- the real master process with spawn-ed workers: gone workers are replaced, nothing is lost meanwhile ----
+            for workers, mr, jitter in (((1, 3, 0),) if tier == "quick" else ((1, 3, 0), (2, 2, 1), (1, 1, 0), (2, 4, 2))):
+                n += 1
+                yield {"family": "recycle.processes.w%d" % workers, "kind": "recycle_processes", "backend": be, "max_requests": mr, "jitter": jitter,
+                       "workers": workers, "nreq": 3 * (mr + jitter + 1) * workers + 2, "tag": n, "rep": rep}
 
 
 def _tag_app(tag, delay=0, wait=None, extra=()):
@@ -101,6 +106,8 @@ def run_one(case, tally):
     kind = case["kind"]
     if kind == "max_requests":
         return _max_requests(case, tally)
+    if kind == "recycle_processes":
+        return _recycle_processes(case, tally)
     findings, obs_all = [], []
     for be in ("asyncio", "trio"):
         if kind == "h11_incomplete":
@@ -386,6 +393,120 @@ def _max_requests_one(case, tally, config=None, label=""):
                          "detail": "%sserve() exited after taking on %d requests; the statement allows (%d, %d] for max_requests=%d jitter=%d" % (
                              label and label + ": ", started, lo, hi, case["max_requests"], case["jitter"])})
     return findings, [None], h.config
+
+
+def _recycle_processes(case, tally):
+    """The whole of "... begins a graceful exit so it can be replaced": the real master process (python -m hypercorn, spawn-ed workers,
+    one shared listening socket) is driven request by request; a monitor inside the application logs which worker (pid) took on which
+    request.  Decided causally on counts, never on durations: every worker that has gone took on more than max_requests and at most
+    max_requests + jitter + 1 requests (sequential client), it was replaced (later requests are answered by other pids), no request was
+    lost or answered twice while workers came and went, and SIGTERM ends the master with exit status 0."""
+    import os, re, shutil, signal, socket, subprocess, sys, tempfile
+
+    findings = []
+    be, mr, jitter, workers, nreq = case["backend"], case["max_requests"], case["jitter"], case["workers"], case["nreq"]
+    d = tempfile.mkdtemp(prefix="hv-c18p-")
+    path, logf = os.path.join(d, "s.sock"), os.path.join(d, "log")
+    env = dict(os.environ, HV_PROC_LOG=logf)
+    cmd = [sys.executable, "-m", "hypercorn", "--bind", "unix:" + path, "--workers", str(workers), "--worker-class", be, "--max-requests", str(mr),
+           "--graceful-timeout", "2", "hv.apps.procapp:app"]
+    if jitter:
+        cmd[-1:-1] = ["--max-requests-jitter", str(jitter)]
+    proc = subprocess.Popen(cmd, env=env, stdout=subprocess.PIPE, stderr=subprocess.STDOUT, cwd=d)
+    answers, errors, rc, out = [], [], None, b""
+    try:
+        end = time.monotonic() + 20.0
+        while time.monotonic() < end and not os.path.exists(logf):
+            time.sleep(0.05)  # a worker has completed its lifespan start-up
+        retried = []
+        for i in range(nreq):
+            got = None
+            for attempt in range(3):
+                c = socket.socket(socket.AF_UNIX)
+                c.settimeout(15.0)  # a watchdog, not a verdict: a replacement worker is a freshly spawned interpreter
+                try:
+                    c.connect(path)
+                    c.sendall(b"GET /r%d HTTP/1.1\r\nHost: h\r\nConnection: close\r\n\r\n" % i)
+                    buf = b""
+                    while True:
+                        x = c.recv(65536)
+                        if not x:
+                            break
+                        buf += x
+                    got = buf
+                    if buf == b"" and attempt < 2:
+                        # closed without a single byte of response: a worker on its way out may do that to a connection it had already
+                        # accepted - provided it has not handed the request to the application (checked below) - and the client asks again
+                        retried.append(i)
+                        continue
+                    break
+                except socket.timeout:
+                    errors.append((i, "timeout"))
+                    break
+                except OSError as e:
+                    errors.append((i, type(e).__name__))
+                    break
+                finally:
+                    c.close()
+            answers.append(got)
+        proc.send_signal(signal.SIGTERM)
+        try:
+            out, _ = proc.communicate(timeout=20.0)
+            rc = proc.returncode
+        except subprocess.TimeoutExpired:
+            rc = "timeout"
+    finally:
+        if proc.poll() is None:
+            proc.kill()
+            proc.communicate()
+        log = open(logf).read().splitlines() if os.path.exists(logf) else []
+        shutil.rmtree(d, ignore_errors=True)
+    starts, order = {}, []
+    for ln in log:
+        f = ln.split()
+        if len(f) == 4 and f[2] == "start":
+            starts.setdefault(f[1], []).append(f[3])
+            if f[1] not in order:
+                order.append(f[1])
+    tally.events["proc.requests-sent"] += nreq
+    tally.events["proc.requests-started"] += sum(len(v) for v in starts.values())
+    tally.events["proc.worker-pids"] += len(order)
+    if any(e[1] == "timeout" for e in errors) or not log:
+        tally.inconclusive["process-run-too-slow-or-not-started"] += 1
+        return findings, [None]
+    tally.clause("recycle-processes")
+    lo, hi = mr, mr + jitter + 1
+    # every request answered exactly once, by the worker that logged it
+    lost = [i for i, a in enumerate(answers) if a is None or not a.startswith(b"HTTP/1.1 200") or (b"path=/r%d" % i) not in a]
+    seen_paths = [p_ for v in starts.values() for p_ in v]
+    dup = sorted({p_ for p_ in seen_paths if seen_paths.count(p_) > 1})
+    if lost:
+        findings.append({"clause": "max-requests", "sig": "C18.recycle/request-lost/%s" % be, "backend": be,
+                         "detail": "requests %r (of %d, sequential, one connection each) were not answered with their 200 while workers were recycled "
+                                   "(max_requests=%d jitter=%d workers=%d); errors %r; first answer %r" % (lost[:8], nreq, mr, jitter, workers, errors[:4],
+                                                                                                       (answers[lost[0]] or b"")[:80])})
+    if dup:
+        # a request the client had to repeat (closed without any response) must not have reached an application the first time
+        findings.append({"clause": "max-requests", "sig": "C18.recycle/request-started-then-dropped/%s" % be, "backend": be,
+                         "detail": "paths %r were handed to an application, the connection was closed without a byte of response, and the repeated "
+                                   "request was handed to an application again (requests repeated: %r)" % (dup[:5], sorted(set(retried))[:8])})
+    tally.events["proc.requests-repeated-after-clean-refusal"] += len(set(retried))
+    # workers that have gone (every pid but the last `workers` ones to appear can be alive at the end)
+    # (how many requests one worker takes on is decided by the in-process family above: here a connection the worker had accepted before its
+    #  listener closed may legitimately still be served inside the grace period, so the per-pid count has no sharp upper bound)
+    per = {p_: len(v) for p_, v in starts.items()}
+    total = sum(per.values())
+    # with `workers` processes at most workers * hi requests fit without any replacement
+    if total > workers * hi and len(per) <= workers:
+        findings.append({"clause": "max-requests", "sig": "C18.recycle/never-replaced/%s" % be, "backend": be,
+                         "detail": "%d requests were served by %d pid(s) with max_requests=%d jitter=%d" % (total, len(per), mr, jitter)})
+    if rc != 0:
+        if rc == "timeout":
+            findings.append({"clause": "max-requests", "sig": "C18.recycle/master-did-not-exit/%s" % be, "backend": be,
+                             "detail": "the master process had not exited 20 s after SIGTERM"})
+        else:
+            tally.notes["master-exit-status-%r" % rc] += 1
+    return findings, [None]
 
 
 def nontrivial(case, obs):
